@@ -345,7 +345,16 @@ fn run_op<const N: usize>(buf: &mut FixedBuf<N>, c: &mut Cur, out: &mut Vec<i128
             *buf = copy;
         }
         23 => guarded(out, |o| enc_bytes(o, buf.escape_ascii().as_bytes())),
-        24 => guarded(out, |o| enc_bytes(o, format!("{:?}", buf).as_bytes())),
+        // the Debug impl is `write!(f, ..)`, which ignores the caller's width / precision: every spec must give the same text
+        24 => guarded(out, |o| {
+            let t = match DEBUG_SPEC.with(|v| v.get()) {
+                4 => format!("{:.3?}", buf),
+                5 => format!("{:24?}", buf),
+                6 => format!("{:>40.60?}", buf),
+                _ => format!("{:?}", buf),
+            };
+            enc_bytes(o, t.as_bytes())
+        }),
         25 => {
             let n = c.next() as usize;
             guarded(out, |_| lib(|| buf.wrote(n)))
@@ -354,8 +363,12 @@ fn run_op<const N: usize>(buf: &mut FixedBuf<N>, c: &mut Cur, out: &mut Vec<i128
     }
 }
 
+thread_local! { static DEBUG_SPEC: std::cell::Cell<u64> = std::cell::Cell::new(0); }
+
 fn api_sized<const N: usize>(c: &mut Cur, out: &mut Vec<i128>) {
     let ctor = c.next();
+    // constructor codes 4..6 = new(), with Debug ops formatted under a precision / width specification
+    DEBUG_SPEC.with(|v| v.set(ctor));
     let mut buf: FixedBuf<N> = match ctor {
         1 | 2 => {
             let m = c.take_n(N);
